@@ -12,6 +12,12 @@ CHECKS = {
              text='For every argument string up to the stated length the solver shows that parseRuleId accepts exactly NNNNNN[-chainK][.ra] with K<=255 and resolves id, file name and chain offset as documented; each length is decided separately and completely. Bounded (length), not a proof.',
              ref='DESIGN.md 4/C18'),
 }
+CHECKS['C11'] = dict(level=MC, technique='bounded symbolic execution of updateRegex over Go SSA + exact regexp oracle + SMT (z3), native replay',
+    text='For every old/new operand (printable ASCII satisfying the C02 invariants) up to the stated lengths, both operator spellings, trailing bytes on the rule line and an arbitrary earlier rule whose SecRule line may be identical, the solver shows that updateRegex changes exactly the operand bytes of the addressed rule; known defect classes are excluded by signature and a witness of each is replayed.',
+    ref='DESIGN.md 4/C11')
+CHECKS['C12'] = dict(level=MC, technique='bounded symbolic execution of readCurrentRegex/updateRegex over Go SSA + exact regexp oracle + SMT (z3), native replay',
+    text='For every operand up to the stated length the solver shows that compare reads back exactly the stored operand and that a second update is the identity on the file bytes (round trip decomposed into single-step lemmas).',
+    ref='DESIGN.md 4/C12')
 NA = {
  'C20': 'decided inside go-selfupdate + net/http + SHA-256 over downloaded streams; not encodable by a hand-written SSA->SMT executor (DESIGN.md section 7)',
 }
